@@ -12,6 +12,8 @@ Default invariant (no sidecar entry): True.
 from __future__ import annotations
 
 import ast
+import os
+import sys
 
 import z3
 
@@ -216,7 +218,9 @@ def havoc_value(eng, st, v, name):
         items = [havoc_value(eng, st, it, name) for it in st.cl[v.id]]
         st.cl[v.id] = tuple(items)
         return v
-    from .engine import VOpaque, VLine
+    from .engine import VOpaque, VLine, VOpt
+    if isinstance(v, VOpt):
+        return VOpt(st.fresh("hv_" + name + "_isnone", z3.BoolSort()), havoc_value(eng, st, v.inner, name))
     if isinstance(v, VOpaque):
         return VOpaque(st.fresh("hv_" + name, z3.IntSort()), v.typ)
     if isinstance(v, VLine):
@@ -247,6 +251,7 @@ def discover(eng, st: State, run_body, pre_names):
     d.assume(na >= d.alloc)
     d.alloc = na
     d.writes = []
+    d.lwrites = []
     saved_obl = eng.obligations
     saved_seen = set(eng._inline_seen)
     eng.obligations = []
@@ -276,12 +281,22 @@ def discover(eng, st: State, run_body, pre_names):
                     cl_changed[cid] = "len"
                 elif any(a is not b for a, b in zip(items, old)):
                     cl_changed.setdefault(cid, "items")
-        for key, ref, line in s.writes:
+        for key, ref, line in list(s.writes) + list(s.lwrites):
             internal = loop_internal(ref, ctr0)
             fresh = False
             if internal:
                 fresh = eng.quick_sat(s.pc, ref <= entry_alloc) == "unsat"
             writes.append((key, ref, line, internal, fresh, s.heap[key].sort()))
+    calls = set()
+    base = len(st.trace)
+    for s, out in outs:
+        for ev in s.trace[base:]:
+            if isinstance(ev, LoopSegment):
+                if getattr(ev, "calls", None):
+                    calls |= set(ev.calls)
+            elif ev.target == "call":
+                calls.add(ev.method)
+    discover.last_calls = calls
     return assigned, cl_changed, writes, outs
 
 
@@ -301,7 +316,7 @@ def loop_internal(term, ctr_at_entry):
     return False
 
 
-def apply_havoc(eng, st: State, entry: State, assigned, cl_changed, writes, ctr_at_entry):
+def apply_havoc(eng, st: State, entry: State, assigned, cl_changed, writes, ctr_at_entry, calls=None):
     """Havoc in `st` everything the body may write (as learned by discovery)."""
     for name, sample in assigned.items():
         cur = entry.env.get(name)
@@ -375,7 +390,9 @@ def apply_havoc(eng, st: State, entry: State, assigned, cl_changed, writes, ctr_
     na = st.fresh("alloc", z3.IntSort())
     st.assume(na >= st.alloc)
     st.alloc = na
-    st.trace = list(st.trace) + [LoopSegment(0)]
+    seg = LoopSegment(0)
+    seg.calls = calls
+    st.trace = list(st.trace) + [seg]
 
 
 def cut_loop(eng, n, st: State, itv, spec):
@@ -433,14 +450,39 @@ def cut_loop(eng, n, st: State, itv, spec):
                 d.cl[cid] = tuple(havoc_value(eng, d, it, "cl") if isinstance(it, (VInt, VBool, VStr, VReal)) else it for it in d.cl[cid])
             return run_body_from(d, i_d)
 
-        assigned, cl_changed, writes, _ = discover(eng, st, disc_body, set(st.env.keys()))
+        assigned, cl_changed, writes, douts = discover(eng, st, disc_body, set(st.env.keys()))
         grow = [cid for cid, how in cl_changed.items() if how == "len"]
+        syn = assigned_names(n.body) | (assigned_names([n.target]) if is_for else set())
+        promoted = False
+        for name, sample in list(assigned.items()):
+            cur = st.env.get(name)
+            if isinstance(cur, VCList) and isinstance(sample, VList) and name not in syn:
+                # a nested loop turned this concrete list into a heap list: do it before this loop
+                st.env[name] = eng.materialize(st, cur, sample.elem)
+                promoted = True
+        if promoted:
+            entry = st.fork()
+            ctr_at_entry = st.fresh_ctr
+            continue
         if not grow:
             break
         changed = False
+        fk = st.ghost.get("fn_key") or eng.cur_fn
+        cc = eng.reg.get(fk) if fk else None
         for name, v in list(st.env.items()):
             if isinstance(v, VCList) and v.id in grow:
-                st.env[name] = eng.materialize(st, v)
+                elem = None
+                if cc is not None and name in cc.locals and cc.locals[name].kind == "list":
+                    elem = cc.locals[name].args[0]
+                if elem is None and (v.elem is None or v.elem == TAny) and not st.cl[v.id]:
+                    for ds, _o in douts:
+                        items = ds.cl.get(v.id, ())
+                        if items:
+                            elem = items[-1].typ
+                            if isinstance(items[-1], VCList):
+                                elem = None
+                            break
+                st.env[name] = eng.materialize(st, v, elem)
                 changed = True
         if not changed:
             raise E.Unsupported("concrete list reachable only indirectly grows inside a cut loop", n)
@@ -456,6 +498,8 @@ def cut_loop(eng, n, st: State, itv, spec):
                     if not loop_internal(ref, ctr_at_entry):
                         same = eng.quick_sat(st.pc, ref == src)
                         if same != "unsat":
+                            if os.environ.get("PYVC_DEBUG"):
+                                print("iter-src clash:", key, ref, src, file=sys.stderr)
                             raise E.Unsupported("loop body may modify the list it iterates over", n)
 
     def inv_env(s, i):
@@ -480,7 +524,7 @@ def cut_loop(eng, n, st: State, itv, spec):
 
     # 3. arbitrary iteration
     h = st.fork()
-    apply_havoc(eng, h, entry, assigned, cl_changed, writes, ctr_at_entry)
+    apply_havoc(eng, h, entry, assigned, cl_changed, writes, ctr_at_entry, set(getattr(discover, 'last_calls', set())))
     i = h.fresh("i", z3.IntSort())
     if is_for:
         h.assume(z3.And(i >= 0, i <= n_term))
@@ -488,6 +532,7 @@ def cut_loop(eng, n, st: State, itv, spec):
         h.assume(g)
     h.ghost = dict(h.ghost)
     h.ghost["loop_i"] = i
+    h.lwrites = list(h.lwrites) + [(key, ref, line) for key, ref, line, _i, _f, _s in writes]
     after = h.fork()
 
     body_state = h.fork()
@@ -498,7 +543,10 @@ def cut_loop(eng, n, st: State, itv, spec):
         dec0 = eng.eval_clause(body_state, spec.decreases + " >= 0", inv_env(body_state, i), module, old_state=fn_entry)
         dec_node = ast.parse(spec.decreases, mode="eval").body
     trace_mark = len(body_state.trace)
+    body_state.writes = []
     for s, out in run_body_from(body_state, i):
+        if out.kind in ("normal", "continue", "break") and getattr(eng, "frame_hook", None) and not getattr(eng, "discovery", 0):
+            eng.frame_hook(s)
         if out.kind in ("normal", "continue"):
             nxt = i + 1 if is_for else i
             for nm, text, g in eval_inv(s, nxt, fn_entry):
